@@ -9,16 +9,27 @@
 (* command-line token such as  --a-b  is  <<45,45,97,45,98>>.              *)
 (*                                                                         *)
 (* A case is a record                                                      *)
-(*   cmd   "generate" | "check"                                            *)
-(*   mode  how the language is chosen: "language" (--language NAME),       *)
-(*         "grammar" (--grammar FILE), "ext" (deduced from the file name)  *)
-(*   argv  the tokens after the options above (custom arguments, their     *)
-(*         values, model files, possibly --overwrite)                      *)
-(*   decl  [declared, params]  what the generator declares:                *)
-(*         params = Seq of [name, mandatory]                               *)
-(*   files Seq of [name, status, line, col]: the model files that exist;   *)
-(*         status "ok" | "syntax" | "semantic", (line, col) = where the    *)
-(*         offending text is when status # "ok"                            *)
+(*   cmd    "generate" | "check"                                           *)
+(*   mode   how the language is chosen: "language" (--language NAME),      *)
+(*          "grammar" (--grammar FILE), "ext" (deduced per file from the   *)
+(*          file name and the registered patterns)                         *)
+(*   sel    which language --language / --grammar names (index in langs)   *)
+(*   argv   the tokens after the options above (custom arguments, their    *)
+(*          values, model files, possibly --overwrite)                     *)
+(*   langs  the registered languages, Seq of                               *)
+(*            [name, suffix, mparams, decl]                                *)
+(*          pattern "*<suffix>"; mparams = names of the model parameters   *)
+(*          the language's meta-model defines; decl = [declared, params]   *)
+(*          what the language's generator for the target declares,         *)
+(*          params = Seq of [name, mandatory]                              *)
+(*   anydecl what the generator registered for language "any" declares     *)
+(*          (it serves --grammar)                                          *)
+(*   files  Seq of [name, lang, status, line, col]: the model files that   *)
+(*          exist; lang = the language the content is written in; status   *)
+(*          "ok" | "syntax" | "semantic" under that language, (line, col)  *)
+(*          = where the offending text is when status # "ok".  Every file  *)
+(*          starts with its language's keyword at 1:1, so under any other  *)
+(*          language it is a syntax error at 1:1.                          *)
 (*                                                                         *)
 (* Every operator that depends on a deviation clause takes the deviation   *)
 (* set D explicitly, so that one TLC run can evaluate the documented       *)
@@ -81,12 +92,36 @@ Kwargs(args) == {args[i] : i \in {j \in 1..Len(args) :
 Keys(kw) == {a.key : a \in kw}
 
 ----------------------------------------------------------------------------
-\* Files and declarations
+\* Files, languages and declarations
 
 FileNames(c)  == {c.files[i].name : i \in 1..Len(c.files)}
 FileRec(c, t) == c.files[CHOOSE i \in 1..Len(c.files) : c.files[i].name = t]
-Loads(c, t)   == FileRec(c, t).status = "ok"
-Loc(c, t)     == [file |-> t, line |-> FileRec(c, t).line, col |-> FileRec(c, t).col]
+
+EndsWith(t, suf) == Len(t) >= Len(suf) /\ SubSeq(t, Len(t) - Len(suf) + 1, Len(t)) = suf
+IsPrefix(a, b)   == Len(a) <= Len(b) /\ SubSeq(b, 1, Len(a)) = a
+
+\* the languages whose pattern matches the file name (language_for_file wants exactly one)
+Matching(c, t) == {k \in 1..Len(c.langs) : EndsWith(t, c.langs[k].suffix)}
+\* the language a model file is loaded with: deduced per file, or the one named on the command line
+UsedLang(c, t) == IF c.mode = "ext" THEN CHOOSE k \in Matching(c, t) : TRUE ELSE c.sel
+
+\* what loading file t gives in this case
+LoadResult(c, t) ==
+  LET f == FileRec(c, t) IN
+  IF f.lang = UsedLang(c, t) THEN [status |-> f.status, line |-> f.line, col |-> f.col]
+                             ELSE [status |-> "syntax", line |-> 1, col |-> 1]
+Loads(c, t) == LoadResult(c, t).status = "ok"
+Loc(c, t)   == [file |-> t, line |-> LoadResult(c, t).line, col |-> LoadResult(c, t).col]
+
+AnyName == <<97, 110, 121>>                                   \* "any"
+\* the generator that serves a model file (t = <<>>: the run without a model), its declaration,
+\* and the model parameters defined for the file's meta-model (a meta-model built from a bare
+\* grammar file defines none)
+GenOf(c, t)   == IF c.mode = "grammar" THEN AnyName
+                 ELSE c.langs[IF t = <<>> THEN c.sel ELSE UsedLang(c, t)].name
+DeclOf(c, t)  == IF c.mode = "grammar" THEN c.anydecl
+                 ELSE c.langs[IF t = <<>> THEN c.sel ELSE UsedLang(c, t)].decl
+MParams(c, t) == IF c.mode = "grammar" \/ t = <<>> THEN {} ELSE Range(c.langs[UsedLang(c, t)].mparams)
 
 ParamNames(decl) == {decl.params[i].name : i \in 1..Len(decl.params)}
 Missing(decl, kw)    == {p \in Range(decl.params) : p.mandatory /\ p.name \notin Keys(kw)}
@@ -108,13 +143,28 @@ DashValueChars == {46} \cup 48..57 \cup {97, 98, 99, 120}
 GoodValue(t) == \/ GoodWord(t)
                 \/ (t[1] = Dash /\ (Len(t) = 1 \/ t[2] # Dash) /\ \A i \in 2..Len(t) : t[i] \in DashValueChars)
 IsValuePos(ts, i) == i > 1 /\ IsOpt(ts[i - 1]) /\ ~IsOpt(ts[i])
-\* model files carry the extension of the carrier language (needed when the language is deduced)
-FileExt    == <<46, 118, 116, 109>>                          \* .vtm
-HasExt(t)  == Len(t) > Len(FileExt) /\ SubSeq(t, Len(t) - Len(FileExt) + 1, Len(t)) = FileExt
+LangChars == 97..122 \cup 48..57                              \* a-z 0-9
+LangsInFragment(langs, sel) ==
+  /\ langs # <<>> /\ sel \in 1..Len(langs)
+  /\ \A i \in 1..Len(langs) :
+        /\ Len(langs[i].name) >= 3 /\ langs[i].name[1] = 118 /\ langs[i].name[2] = 116   \* carrier languages: vt...
+        /\ \A k \in 1..Len(langs[i].name) : langs[i].name[k] \in LangChars
+        /\ langs[i].suffix # <<>>
+        /\ \A k, m \in 1..Len(langs[i].mparams) :
+              /\ langs[i].mparams[k] = Norm(langs[i].mparams[k]) /\ langs[i].mparams[k] # <<>>
+              /\ (langs[i].mparams[k] = langs[i].mparams[m] => k = m)
+  \* names are told apart by their first differing character, patterns never match the same file twice
+  /\ \A i, j \in 1..Len(langs) : i # j =>
+        /\ ~IsPrefix(langs[i].name, langs[j].name)
+        /\ ~EndsWith(langs[i].suffix, langs[j].suffix)
 
-FilesInFragment(files) ==
+FilesInFragment(files, nlangs) ==
   /\ \A i, j \in 1..Len(files) : files[i].name = files[j].name => i = j
-  /\ \A i \in 1..Len(files) : HasExt(files[i].name) /\ GoodWord(files[i].name)
+  /\ \A i \in 1..Len(files) :
+        /\ files[i].name # <<>> /\ GoodWord(files[i].name)
+        /\ files[i].lang \in 1..nlangs
+        /\ files[i].status # "ok" => (files[i].line >= 2 /\ files[i].col >= 1)   \* line 1 is the language keyword
+        /\ files[i].status = "semantic" => files[i].col >= 5
 
 ArgvInFragment(cmd, mode, argv, fnames) ==
   /\ argv # <<>>
@@ -128,6 +178,9 @@ ArgvInFragment(cmd, mode, argv, fnames) ==
              /\ \A i \in 1..Len(s.files) : s.files[i] \in fnames        \* existing model files only
              /\ s.files = <<>> => (mode = "language" /\ s.args # <<>>)  \* model-less run: explicit language
 
+\* the tokens of argv that stand for model files
+ModelFiles(c) == IF c.cmd = "check" THEN c.argv ELSE Scan(Own(c.argv), <<>>, <<>>, {}).files
+
 DeclInFragment(decl) ==
   /\ decl.declared => decl.params # <<>>
   /\ ~decl.declared => decl.params = <<>>
@@ -136,34 +189,46 @@ DeclInFragment(decl) ==
         /\ (decl.params[i].name = decl.params[j].name => i = j)
 
 InFragment(c) ==
-  /\ FilesInFragment(c.files)
+  /\ LangsInFragment(c.langs, c.sel)
+  /\ FilesInFragment(c.files, Len(c.langs))
   /\ ArgvInFragment(c.cmd, c.mode, c.argv, FileNames(c))
-  /\ c.cmd = "generate" => DeclInFragment(c.decl)
+  \* a deduced language must be deducible: exactly one pattern matches each model file
+  /\ c.mode = "ext" => \A i \in 1..Len(ModelFiles(c)) : Cardinality(Matching(c, ModelFiles(c)[i])) = 1
+  /\ c.cmd = "generate" => /\ DeclInFragment(c.anydecl)
+                            /\ \A i \in 1..Len(c.langs) : DeclInFragment(c.langs[i].decl)
 
 ----------------------------------------------------------------------------
 \* generate: every model file is loaded, the arguments are validated, the
 \* generator is called once per model (once with no model if none is given)
 
-Call(file, kw, ow) == [file |-> file, kw |-> kw, ow |-> ow]
+\* one call of a generator: for which model file, which generator (the language it is registered
+\* for), the keyword arguments, the overwrite flag, and the model parameters the model was loaded with
+Call(file, gen, kw, ow, mp) == [file |-> file, gen |-> gen, kw |-> kw, ow |-> ow, mp |-> mp]
+
+\* Every custom argument goes to the generator; those that are also model parameters of the
+\* file's meta-model are, in addition, given to the model when it is loaded (registration.md).
+CallFor(c, t, kw, ow) == Call(t, GenOf(c, t), kw, ow, {a \in kw : a.key \in MParams(c, t)})
 
 Generate(c, D) ==
   LET own   == Own(c.argv)
       s     == Scan(own, <<>>, <<>>, D)
       kw    == Kwargs(s.args)
       ow    == Overwrite(c.argv)
-      rej   == ArgsRejected(c.decl, kw)
+      fs    == IF s.files = <<>> THEN << <<>> >> ELSE s.files        \* <<>> : the run without a model
+      \* each model is served by its own generator: the declaration is consulted per file
+      rej   == {i \in 1..Len(fs) : ArgsRejected(DeclOf(c, fs[i]), kw)}
       bad   == {i \in 1..Len(s.files) : ~Loads(c, s.files[i])}
       why   == (IF bad # {} THEN {"load"} ELSE {})
-               \cup (IF c.decl.declared /\ Missing(c.decl, kw) # {} THEN {"missing"} ELSE {})
-               \cup (IF c.decl.declared /\ Undeclared(c.decl, kw) # {} THEN {"undeclared"} ELSE {})
-      calls == IF s.files = <<>> THEN << Call(<<>>, kw, ow) >>
-               ELSE [i \in 1..Len(s.files) |-> Call(s.files[i], kw, ow)]
+               \cup (IF \E i \in 1..Len(fs) : DeclOf(c, fs[i]).declared /\ Missing(DeclOf(c, fs[i]), kw) # {}
+                     THEN {"missing"} ELSE {})
+               \cup (IF \E i \in 1..Len(fs) : DeclOf(c, fs[i]).declared /\ Undeclared(DeclOf(c, fs[i]), kw) # {}
+                     THEN {"undeclared"} ELSE {})
+      calls == [i \in 1..Len(fs) |-> CallFor(c, fs[i], kw, ow)]
   IN IF why = {}
      THEN [exit |-> 0, calls |-> calls, allowed |-> Range(calls), why |-> {"none"}, locs |-> {}]
      ELSE [exit |-> 1, calls |-> <<>>,
-           \* a generator is never called with rejected arguments, nor for a model that does not load
-           allowed |-> IF rej THEN {}
-                       ELSE {Call(s.files[i], kw, ow) : i \in {j \in 1..Len(s.files) : Loads(c, s.files[j])}},
+           \* a generator is never called with arguments it rejects, nor for a model that does not load
+           allowed |-> {calls[i] : i \in {j \in 1..Len(fs) : j \notin rej /\ j \notin bad}},
            why |-> why,
            locs |-> {Loc(c, s.files[i]) : i \in bad}]
 
@@ -181,12 +246,12 @@ Expected(c)     == ExpectedD(c, Dev)
 ----------------------------------------------------------------------------
 \* An observation of the real command:
 \*   exit   exit status
-\*   calls  Seq of [file, kw (Seq of [key, ty, val]), ow]  as received by the generator
+\*   calls  Seq of [file, gen, kw (Seq of [key, ty, val]), ow, mp (like kw)]  as received by the generators
 \*   why    class of the ERROR message: "none" "load" "missing" "undeclared" "other"
 \*   locs   Seq of [file, line, col] found in ERROR messages
 \*   oks    Seq of file names reported "OK."
 
-ObsCall(x) == Call(x.file, Range(x.kw), x.ow)
+ObsCall(x) == Call(x.file, x.gen, Range(x.kw), x.ow, Range(x.mp))
 NoDupKeys(x) == \A i, j \in 1..Len(x.kw) : x.kw[i].key = x.kw[j].key => i = j
 
 AcceptsD(c, o, D) ==
@@ -239,37 +304,58 @@ FlagsAndValues(c, e) ==
            ELSE /\ a.ty = "str" /\ a.val = Strip(av[i + 1])
                 /\ (a.val # <<>> => ~IsQuote(a.val[1]) /\ ~IsQuote(a.val[Len(a.val)]))
 
-\* what the property calls unacceptable arguments, read off the argv
-WrongArgs(c) ==
-  LET given == GivenNames(Own(c.argv)) IN
-  c.decl.declared /\ (\/ \E k \in given : k \notin ParamNames(c.decl)
-                      \/ \E p \in Range(c.decl.params) : p.mandatory /\ p.name \notin given)
+\* what the property calls unacceptable arguments for the generator serving model file t
+\* (t = <<>>: the run without a model), read off the argv
+WrongArgs(c, t) ==
+  LET given == GivenNames(Own(c.argv))
+      decl  == DeclOf(c, t)
+  IN decl.declared /\ (\/ \E k \in given : k \notin ParamNames(decl)
+                       \/ \E p \in Range(decl.params) : p.mandatory /\ p.name \notin given)
 
-\* generators that declare their parameters: undeclared or missing mandatory => exit 1, no call
+Served(c) == LET av == Own(c.argv)
+                 mp == ModelPositions(av)
+             IN IF mp = {} THEN {<<>>} ELSE {av[i] : i \in mp}
+
+\* generators that declare their parameters: undeclared or missing mandatory => exit 1, and
+\* that generator is not called; this holds for the generator of every model file
 DeclaredEnforced(c, e) ==
-  (c.cmd = "generate" /\ c.decl.declared) =>
-    LET wrong == WrongArgs(c) IN
-    /\ wrong => (e.exit = 1 /\ e.calls = <<>> /\ e.allowed = {})
-    /\ e.exit = 0 => ~wrong
+  c.cmd = "generate" =>
+    \A t \in Served(c) :
+      /\ WrongArgs(c, t) => (e.exit = 1 /\ e.calls = <<>> /\ \A x \in e.allowed : x.file # t)
+      /\ e.exit = 0 => ~WrongArgs(c, t)
 
-\* generate succeeds exactly when the arguments are acceptable and every model loads,
-\* and then the generator was called once per model file, in order
+\* generate succeeds exactly when every generator accepts the arguments and every model loads,
+\* and then each model's generator was called once, in order, with the overwrite flag
 GenerateOutcome(c, e) ==
   c.cmd = "generate" =>
-    LET av == Own(c.argv)
-        mp == ModelPositions(av)
-    IN /\ e.exit = 0 <=> (~WrongArgs(c) /\ \A i \in mp : Loads(c, av[i]))
-       /\ e.exit = 0 =>
-            /\ Len(e.calls) = IF mp = {} THEN 1 ELSE Cardinality(mp)
-            /\ {x.file : x \in Range(e.calls)} = IF mp = {} THEN {<<>>} ELSE {av[i] : i \in mp}
-            /\ \A x \in Range(e.calls) : x.ow = (TokOverwrite \in Range(c.argv))
+    /\ e.exit = 0 <=> \A t \in Served(c) : ~WrongArgs(c, t) /\ (t # <<>> => Loads(c, t))
+    /\ e.exit = 0 =>
+         /\ Len(e.calls) = IF ModelPositions(Own(c.argv)) = {} THEN 1 ELSE Cardinality(ModelPositions(Own(c.argv)))
+         /\ {x.file : x \in Range(e.calls)} = Served(c)
+         /\ \A x \in Range(e.calls) : x.ow = (TokOverwrite \in Range(c.argv)) /\ x.gen = GenOf(c, x.file)
 
-\* check: 0 iff every model loads; otherwise 1 with the location of a failing file
+\* a custom argument that is also a model parameter of the model's language still reaches the
+\* generator (NamesNormalised) and is, in addition, what the model was loaded with
+ModelParamsPassed(c, e) ==
+  c.cmd = "generate" =>
+    \A x \in Range(e.calls) :
+      /\ x.mp \subseteq x.kw
+      /\ Keys(x.mp) = GivenNames(Own(c.argv)) \cap MParams(c, x.file)
+
+\* check: 0 iff every model loads with the language that applies to it (the one named, or the
+\* one whose pattern matches its name); otherwise 1 with the location of a failing file
 CheckOutcome(c, e) ==
   c.cmd = "check" =>
-    /\ e.exit = 0 <=> \A i \in 1..Len(c.argv) : Loads(c, c.argv[i])
+    /\ e.exit = 0 <=> \A i \in 1..Len(c.argv) :
+                        LET f == FileRec(c, c.argv[i])
+                            L == IF c.mode = "ext" THEN CHOOSE k \in 1..Len(c.langs) : EndsWith(f.name, c.langs[k].suffix)
+                                 ELSE c.sel
+                        IN f.lang = L /\ f.status = "ok"
     /\ e.exit = 1 =>
          /\ e.locs # {}
          /\ \A l \in e.locs :
-               ~Loads(c, l.file) /\ l.line = FileRec(c, l.file).line /\ l.col = FileRec(c, l.file).col
+               /\ ~Loads(c, l.file)
+               /\ IF FileRec(c, l.file).lang = UsedLang(c, l.file)
+                  THEN l.line = FileRec(c, l.file).line /\ l.col = FileRec(c, l.file).col
+                  ELSE l.line = 1 /\ l.col = 1
 =============================================================================
